@@ -508,5 +508,5 @@ func run(t *testing.T, part string, n int) {
 	r.Finish()
 }
 
-func TestVerif_Model(t *testing.T)     { run(t, "model", vkit.N(4000, 200000)) }
+func TestVerif_Model(t *testing.T)     { run(t, "model", vkit.N(8000, 300000)) }
 func TestVerifRace_Model(t *testing.T) { run(t, "model-race", vkit.N(300, 5000)) }
